@@ -7,7 +7,8 @@ CONSTANTS
   Totals = {}
   AfterSizes = {2}
   ReqModes = {"page", "after", "before"}
-  MaxN = 5
+  MaxN = 6
+  MaxN1 = 5
   MaxN2 = 4
   ScoresSorted = {0, 1, 2}
   ScoresOther = {1}
